@@ -11,7 +11,7 @@ HOSTS = {
     "core": ("timer_core", "verdicts_core"),
     "legacy": ("timer_legacy", "verdicts_legacy"),
 }
-KNOWN = {}   # verdict code 100+k -> class name (filled below when classes exist)
+KNOWN = {101: "legacy_clear_unrequested", 102: "legacy_clear_after_outcome"}   # verdict code 100+k -> class name
 
 def first_id(c):
     m = re.search(r"OStarted (\d+)", c["obs"]) or re.search(r"LStarted (\d+)", c["obs"])
